@@ -211,7 +211,10 @@ class Cli:
             else:
                 raise RuntimeError('`--model` argument should contain exactly 2 or 3 strings')
 
-            for real_path in process_path(path_raw):
+            paths = list(process_path(path_raw))
+            if not paths:
+                raise FileNotFoundError(f"No files match the path pattern '{path_raw}'")
+            for real_path in paths:
                 iterator = iter_json_file(parser(real_path), lookup)
                 models_dict[model_name].extend(iterator)
 
